@@ -8,3 +8,6 @@ void v7_disarm_devconn_timers(void) {
   os_timer_disarm(&devconn->supla_watchdog_timer); os_timer_disarm(&devconn->supla_devconn_timer1);
   os_timer_disarm(&devconn->supla_iterate_timer); os_timer_disarm(&devconn->supla_value_timer);
 }
+
+/* C06: bytes waiting in devconn's own send buffer (refused by espconn_sent, retried at the next write) */
+int v7_send_buffer_len(void) { return devconn ? devconn->esp_send_buffer_len : 0; }
